@@ -432,20 +432,34 @@ def _check_search_log(prog: Program, res: Result):
     for p in fi.params():
         st.env[p] = Rat.atom(p)
     fin = [f for f in eng.run_function(st) if f.exit and f.exit[0] == "return"]
-    if len(fin) != 1:
-        raise AnalysisError(f"{q}: expected one return path")
+    if not fin or len(fin) > 16:
+        raise AnalysisError(f"{q}: {len(fin)} return paths")
     ps = [p for p in fi.params() if p != "self"]
     a, b = Rat.atom(ps[0]), Rat.atom(ps[1])
-    want = sym.call("max", [a - Rat.atom("self.sim_params.max_EFT_allowable"), Rat.atom("self.sim_params.min_EFT_allowable") - b])
-    rv = fin[0].exit[1]
-    ok = isinstance(rv, Rat) and rv.equals(want)
-    res.ob("R12.4", f"cost(max_eft, min_eft) = max(max_eft - max_allowed, min_allowed - min_eft) (got {_k(rv)})", ok, prog.loc(fi, fin[0].exit[2]))
-    if not ok:
-        res.violation("R12.4", f"cost|{_k(rv)[:120]}", prog.loc(fi, fin[0].exit[2]), q,
-                      f"the excess is {_k(rv)[:200]}, not max(max_eft - max_EFT_allowable, min_EFT_allowable - min_eft)")
-
+    d1, d2 = a - Rat.atom("self.sim_params.max_EFT_allowable"), Rat.atom("self.sim_params.min_EFT_allowable") - b
+    want = sym.call("max", [d1, d2])
+    for f in fin:
+        rv = f.exit[1]
+        # on this path the returned value is the larger of the two excesses: max(...) itself, or one of them when the path has
+        # established that it is not smaller than the other
+        ok = isinstance(rv, Rat) and rv.equals(want)
+        if not ok and isinstance(rv, Rat):
+            if rv.equals(d1):
+                ok = f.sign_of(d1 - d2) <= frozenset("+0")
+            elif rv.equals(d2):
+                ok = f.sign_of(d2 - d1) <= frozenset("+0")
+        trail = " & ".join(k for k, tr, ln in f.trail)[:100]
+        res.ob("R12.4", f"cost(max_eft, min_eft) = max(max_eft - max_allowed, min_allowed - min_eft) (got {_k(rv)[:60]}{' on [' + trail + ']' if trail else ''})", ok, prog.loc(fi, f.exit[2]))
+        if not ok:
+            res.violation("R12.4", f"cost|{_k(rv)[:120]}", prog.loc(fi, f.exit[2]), q,
+                          f"the excess is {_k(rv)[:200]}{' on the path [' + trail + ']' if trail else ''}, not max(max_eft - max_EFT_allowable, min_EFT_allowable - min_eft): "
+                          "a log row (and the search) then carries the smaller of the two violations")
 
 VARIANTS = [
+    Variant("cost returns the first violated limit instead of the worse one (seeded C12_e)", "break",
+            [(GHX, "        t_excess = max(delta_t_max, delta_t_min)\n        return t_excess\n", "        if delta_t_max > 0.0:\n            return delta_t_max\n        if delta_t_min > 0.0:\n            return delta_t_min\n        return max(delta_t_max, delta_t_min)\n")], "R12.4"),
+    Variant("cost written as a comparison instead of max()", "benign",
+            [(GHX, "        t_excess = max(delta_t_max, delta_t_min)\n        return t_excess\n", "        if delta_t_max >= delta_t_min:\n            return delta_t_max\n        return delta_t_min\n")]),
     Variant("size() no longer re-simulates at the returned height (repaired defect F7 returns)", "break",
             [(GHX, "        self.bhe.b.H = returned_height\n        # the solver's last evaluation need not be at the returned height (e.g. when it is clamped\n        # at a bound): leave the object with the temperatures of the height it reports\n        self.simulate(method=method)\n",
               "        self.bhe.b.H = returned_height\n")], "R12.3"),
